@@ -125,7 +125,7 @@ impl ZipIntVec {
     #[inline]
     pub fn set(&mut self, idx: usize, val: usize) {
         assert!(val >= self.min_val, "Value {} below minimum {}", val, self.min_val);
-        let max_val = self.min_val + self.inner.uintmask();
+        let max_val = self.min_val.saturating_add(self.inner.uintmask());
         assert!(val <= max_val, "Value {} exceeds maximum {}", val, max_val);
         self.inner.set(idx, val - self.min_val);
     }
@@ -267,7 +267,7 @@ impl ZipIntVec {
     /// Get maximum value that can be stored
     #[inline]
     pub fn max_val(&self) -> usize {
-        self.min_val + self.inner.uintmask()
+        self.min_val.saturating_add(self.inner.uintmask())
     }
 
     /// Get underlying byte data
